@@ -3,15 +3,18 @@
 # Runs in isolation so that /repo and /verif/harness stay usable meanwhile: a scratch worktree of /repo, a snapshot
 # of the harness sources pointed at that worktree, and its own target directory, all under $RG (removed at the end).
 # usage: tools/regress.sh [id-prefix…]      output: /verif/work/regress.log (ends with DONE)
+#        BENIGN="B15 B16" tools/regress.sh  every quick check against each listed behaviour-preserving patch of /verif/benign;
+#                                          output: /verif/work/regress-benign.log
 #        BATCH=<file> tools/regress.sh     lines "<worktree-suffix> <seeded-id> <property> <check ids…>": each change is first
 #                                          confirmed in its scratch worktree /tmp/wt-<suffix> (tools/confirm_seeded.sh), then the
 #                                          listed checks run against it; output: /verif/work/regress-batch.log
 RG=${RG:-/tmp/jbv-regress}
 LOG=/verif/work/regress.log; [ -n "$BATCH" ] && { RG=${RG}-batch; LOG=/verif/work/regress-batch.log; }
+[ -n "$BENIGN" ] && { RG=${RG}-benign; LOG=/verif/work/regress-benign.log; }
 cd /verif || exit 2
 rm -rf "$RG"; git -C /repo worktree prune; mkdir -p "$RG"
 git -C /repo worktree add --detach "$RG/repo" HEAD >/dev/null 2>&1 || exit 2
-rsync -a --exclude target /verif/harness/ "$RG/harness/"
+rsync -a --exclude target "${HARNESS_SRC:-/verif/harness}/" "$RG/harness/"
 sed -i "s#path = \"/repo\"#path = \"$RG/repo\"#" "$RG/harness/Cargo.toml"
 export CARGO_TARGET_DIR="$RG/target" CARGO_NET_OFFLINE=true
 build() { (cd "$RG/harness" && cargo build --release --offline >"$RG/build.log" 2>&1); }
@@ -32,7 +35,21 @@ one() {
   git -C "$RG/repo" checkout -- .
   echo "$id$res" >> $LOG
 }
-if [ -n "$BATCH" ]; then
+if [ -n "$BENIGN" ]; then
+  # behaviour-preserving controls: every quick check must exit 0 (known findings allowed) with the patch applied
+  for b in $BENIGN; do
+    git -C "$RG/repo" apply /verif/benign/$b.patch 2>/dev/null || { echo "$b PATCH-DOES-NOT-APPLY" >> $LOG; git -C "$RG/repo" checkout -- .; git -C "$RG/repo" clean -fdq; continue; }
+    if ! build; then echo "$b HARNESS-BUILD-FAILS" >> $LOG; git -C "$RG/repo" checkout -- .; git -C "$RG/repo" clean -fdq; continue; fi
+    res=""
+    for c in $(jq -r '.checks[].property_id' /verif/MANIFEST.json); do
+      JBV_OUT="$RG/out" "$RG/target/release/jbv" check $c quick >"$RG/one.log" 2>&1; rc=$?
+      res="$res $c=$rc"
+      [ $rc != 0 ] && res="$res($(grep -m1 -A1 '^VIOLATION\|MACHINERY' "$RG/one.log" | tail -1 | cut -c1-200))"
+    done
+    git -C "$RG/repo" checkout -- .; git -C "$RG/repo" clean -fdq
+    echo "$b$res" >> $LOG
+  done
+elif [ -n "$BATCH" ]; then
   while read -r wt id prop checks; do
     [ -z "$wt" ] && continue
     echo "CONFIRM $(env -u CARGO_TARGET_DIR /verif/tools/confirm_seeded.sh /tmp/wt-$wt $id $prop 2>&1 | tail -1)" >> $LOG
